@@ -837,8 +837,18 @@ class SVal:
             b = self.ev(e.orelse, env, pc + ((c, False),), record)
             return mk_cond(c, a, b)
         if isinstance(e, ast.Call):
-            args = [ev(a.value) if isinstance(a, ast.Starred) else ev(a) for a in e.args]
-            args = [('star', t) if isinstance(a, ast.Starred) else t for a, t in zip(e.args, args)]
+            args0 = [ev(a.value) if isinstance(a, ast.Starred) else ev(a) for a in e.args]
+            args = []
+            for a, t in zip(e.args, args0):
+                if not isinstance(a, ast.Starred):
+                    args.append(t)
+                elif t[0] == 'call' and isinstance(t[1], str) and t[1].startswith('namedtuple.') and all(
+                        not k.startswith('#') and v[0] != 'star' for k, v in t[3]):
+                    args.extend(v for _, v in t[3])          # f(*record): the fields of the record, in order
+                elif t[0] == 'tuple' and not any(isinstance(x, tuple) and x and x[0] in ('star', 'when', 'each') for x in t[1]):
+                    args.extend(t[1])
+                else:
+                    args.append(('star', t))
             return self._record_call(e, env, pc, args, record)
         if isinstance(e, ast.Subscript):
             b = ev(e.value)
@@ -981,6 +991,8 @@ class SVal:
                 quals = tuple(sorted(t.qual for t in r.targets))
                 if len(r.targets) == 1:
                     params = r.targets[0].call_params() + r.targets[0].kwonly
+                    if r.targets[0].is_staticmethod:
+                        recv = None         # a static method has no receiver: self.f(..), cls.f(..) and Class.f(..) are one call
                 callee = quals[0] if len(quals) == 1 else quals
             elif r.kind == 'ctor':
                 callee = 'new ' + (r.cls.qual if r.cls is not None else '?')
